@@ -6,6 +6,7 @@ Used by the generated driver requests and by the theorems of `Props/C11/Generate
 -/
 import CnfgenModel.Generated.FuncsAbs
 import CnfgenModel.Graph.Basic
+import CnfgenModel.Graph.Build
 namespace Cnfgen
 namespace Vars
 open Cnfgen.PyGen
@@ -35,6 +36,21 @@ def absDi (D : DiG) : AbsDiGraph where
   successors := fun u => (D.successors u).map (·.map Int.ofNat)
   in_degree := fun u => (D.inDegree u).map (fun (n : Nat) => (n : Int))
   out_degree := fun u => (D.outDegree u).map (fun (n : Nat) => (n : Int))
+
+/-- a `Graph` object (simple undirected graph), as seen by the family generators -/
+def absGraph (G : SimpleG) : AbsGraph where
+  number_of_vertices := G.n
+  number_of_edges := G.m
+  vertices := ⟨1, (G.n : Int) + 1⟩
+  neighbors := fun u => (G.neighbors u).map (·.map Int.ofNat)
+  degree := fun u => (G.degree u).map (fun (n : Nat) => (n : Int))
+  has_edge := fun u v => G.hasEdge u v
+  edges := G.edges.map (fun e => ((e.1 : Int), (e.2 : Int)))
+
+/-- `Graph.complete_graph(n)`, as seen by the family generators: the model of the constructor in `Graph/Build.lean`
+(`Graph(n)` validates `n ≥ 0`, then `add_edge(u, v)` for `u < v` in the order of the two nested loops; property C15) -/
+def absCompleteGraph (n : Int) : Except Err AbsGraph :=
+  (GBuild.completeGraph n).map absGraph
 
 /-- `CompleteBipartiteGraph(L, R)` (`non_negative_int` on both sides), as seen by the variable groups -/
 def absCompleteBip (l r : Int) : Except Err AbsBipGraph :=
